@@ -254,10 +254,8 @@ func c03CallsCase(tier string, idx int) *c03Case {
 	case 5: // function value bound to a variable
 		st := []hs.Stmt{hs.LetS("g", hs.V("f"))}
 		p.Funcs = append(p.Funcs, mainFn(append(st, consume(hs.CallE(hs.V("g"), args()...))...)...), hs.Fn("f", ret, body(), params...))
-	case 6: // spawn + join
-		st := []hs.Stmt{hs.LetS("t", &hs.Spawn{Fn: "f", Args: args()})}
-		st = append(st, consume(hs.MCall(hs.V("t"), "join"))...)
-		p.Funcs = append(p.Funcs, mainFn(st...), hs.Fn("f", ret, body(), params...))
+	case 6: // spawn (what a thread handle offers is not part of the rules: the handle is dropped)
+		p.Funcs = append(p.Funcs, mainFn(hs.ES(&hs.Spawn{Fn: "f", Args: args()})), hs.Fn("f", ret, body(), params...))
 	case 7: // recursion with an early return
 		var rec hs.Stmt
 		var as []hs.Expr
